@@ -764,6 +764,8 @@ fn parse_line(line: &str) -> Option<(String, usize, DataSpec, Vec<Op>)> {
 mod flm;
 #[path = "hasher_cbr.rs"]
 mod cbr;
+#[path = "hasher_catable.rs"]
+mod catable;
 
 pub fn run_cmd(args: &Args) {
     if args.rest.first().map(|x| x.as_str()) == Some("flm") {
@@ -771,6 +773,9 @@ pub fn run_cmd(args: &Args) {
     }
     if args.rest.first().map(|x| x.as_str()) == Some("cbr") {
         return cbr::run(args);
+    }
+    if args.rest.first().map(|x| x.as_str()) == Some("catable") {
+        return catable::run(args);
     }
     let thorough = args.tier == "thorough";
     let seed = args.seed;
